@@ -30,7 +30,7 @@ def sign_scalar(scalar: bytes, msg: bytes) -> bytes:
 SLACK = 60        # the default ts_threshold
 
 
-def one(F, T, k, seeds, sf, preimage, wrong, timeout, tw, tw_wrong, hash_size=20, flags='00', ahead=SLACK):
+def one(F, T, k, seeds, sf, preimage, wrong, timeout, tw, tw_wrong, hash_size=20, flags='00', ahead=SLACK, perturb=None):
     recv, refund, other = seeds
     pk_r, pk_f = E.public_key(recv), E.public_key(refund)
     old_tt, old_ft = T.time, F.time
@@ -81,7 +81,10 @@ def one(F, T, k, seeds, sf, preimage, wrong, timeout, tw, tw_wrong, hash_size=20
                 else:
                     wit = push(sig) + op('FALSE')
         F.time = lambda: now
-        ok = F.run_auth_scripts([wit, bytes(lock.bytes)], {**sf, 'timestamp': t})
+        cache = {**sf, 'timestamp': t}
+        if perturb:          # a sigfield changed after signing
+            cache[perturb] = cache[perturb] + b'!'
+        ok = F.run_auth_scripts([wit, bytes(lock.bytes)], cache)
         return 'true' if ok else 'false'
     finally:
         T.time, F.time = old_tt, old_ft
@@ -112,15 +115,32 @@ def record_random(args):
         k = {'lock': r.choice(['htlc_sha', 'htlc_shake', 'htlc2_sha', 'htlc2_shake', 'ptlc', 'ptlc_tweak']),
              'wit': r.choice(['htlc', 'htlc2', 'ptlc', 'ptlc_refund']), 'signer': r.choice([1, 1, 2, 2, 3, 11, 12]),
              'pre': r.choice(['right', 'wrong']), 'tm': r.choice(['before', 'at', 'after', 'future', 'slackm1'])}
-        flags = r.choice(['00', '00', '01'])
+        # sigflags (used as the lock's allowed byte and the witness's flag): an excluded field changed after signing keeps
+        # the verdict; a covered field changed makes the signature invalid (modelled as a signature by another key)
+        bit = r.randrange(8)
+        flags = r.choice(['00', '00', f'{1 << bit:02x}', f'{(1 << bit) | r.randrange(255):02x}'])
+        if flags == 'ff':
+            flags = 'fe'
+        perturb = None
+        model = dict(k)
+        pm = r.random()
+        if pm < 0.25 and int(flags, 16):
+            ex = [i for i in range(1, 9) if int(flags, 16) >> (i - 1) & 1]
+            perturb = f'sigfield{r.choice(ex)}'
+            sf.setdefault(perturb, b'e')
+        elif pm < 0.4:
+            cov = [i for i in range(1, 9) if not int(flags, 16) >> (i - 1) & 1]
+            perturb = f'sigfield{r.choice(cov)}'
+            sf.setdefault(perturb, b'c')
+            model['signer'] = 3 if k['signer'] in (1, 2, 3) else 12
         try:
             got = one(F, T, k, seeds, sf, pre, wrong, r.choice([1, 60, 86400, 10 ** 7]), E.clamp(r.randbytes(32)), E.clamp(r.randbytes(32)),
-                      hash_size=r.choice([16, 20, 32]), flags=flags, ahead=r.choice([SLACK, SLACK, SLACK + 1, 10 ** 6]))
+                      hash_size=r.choice([16, 20, 32]), flags=flags, ahead=r.choice([SLACK, SLACK, SLACK + 1, 10 ** 6]), perturb=perturb)
         except BaseException as e:
             if isinstance(e, (KeyboardInterrupt, SystemExit)):
                 raise
             got = f'raised-{type(e).__name__}'
-        out.append({**k, 'got': got})
+        out.append({**model, 'got': got})
     return out
 
 
@@ -133,7 +153,7 @@ def main(tier: str, seed: int) -> int:
                 'cases; laws AcceptIffClaimOrRefund, WrongPreimageNeverClaims, NoRefundBeforeTimeout, OtherKeyRejected; each case is '
                 'built with the real builders under pinned clocks (tools.time at creation, functions.time at the check) and run '
                 'through run_auth_scripts. traces: random seeds, preimages of 1..64 bytes, digest sizes 16/20/32, timeouts from 1 s to '
-                '10^7 s, tweak scalars, sigfield sets and flags, judged by TLC.')
+                '10^7 s, tweak scalars, sigfield sets, random sigflags bytes with excluded / covered fields changed after signing, judged by TLC.')
     rep.assumptions = ['ideal hashes / signatures', 'a wrong preimage is a non-zero byte string different from the preimage']
     quick = tier == 'quick'
     scncheck.mc(rep, 'Htlc', 'mc', INV, run_mc, workers=4)
